@@ -68,7 +68,8 @@ class MetaSys(System):
 
     def build(self):
         os.makedirs(self.root, exist_ok=True)
-        start = {'a': VALUES['int'], 'b': VALUES['uni']} if self.cfg['start'] == 'given' else None
+        start = {'a': VALUES['int'], 'b': VALUES['uni']} if self.cfg['start'] == 'given' else \
+            ({} if self.cfg['start'] == 'emptydict' else None)
         if self.cfg['kind'] == 'array':
             h = self.darr.asarray(self.path, np.arange(3, dtype='<i4'), metadata=start, accessmode='r+')
         else:
